@@ -1,5 +1,6 @@
 """C15 — endpoints match exactly when topic, type, partition and RxO QoS are compatible."""
 import itertools
+import sys
 
 from vlib.core import cz
 
@@ -301,8 +302,35 @@ def gen(r, tier):
     elif tier == "search":
         cases += random_rxo(r, 12000) + partition_cases(r, 12000) + gating_cases(r, 3000)
     else:
-        cases += random_rxo(r, 60000) + partition_cases(r, 50000) + gating_cases(r, 10000) + all_kinds(r)
+        # the exhaustive product of all kinds (589 824 pairs) runs in batches, see `extra`
+        cases += random_rxo(r, 60000) + partition_cases(r, 50000) + gating_cases(r, 10000)
     return cases
+
+
+def extra(ctx, binary):
+    """thorough tier: every combination of the kind-valued fields of both sides, in batches
+    small enough for one Coq list literal per shard"""
+    if ctx.tier != "thorough":
+        return
+    from vlib import core
+    cases = all_kinds(ctx.rng)
+    step = 100000
+    total_bad = 0
+    for k in range(0, len(cases), step):
+        chunk = cases[k:k + step]
+        res, lines, outs = core.correspond(ctx, sys.modules[__name__], binary, chunk,
+                                           label="kinds%d" % (k // step))
+        for i in res["oracle_bad"][:3]:
+            ctx.violations.append(("oracle", "property oracle rejects implementation behaviour on case: %s -> %s"
+                                   % (lines[i], outs[i]), {"case": lines[i], "harness": HARNESS, "impl_output": outs[i]}))
+        if res["model_bad"]:
+            i0 = res["model_bad"][0]
+            total_bad += len(res["model_bad"])
+            ctx.broken.append("correspondence C15 (all kinds): implementation differs from model on %d case(s), e.g. %s -> %s"
+                              % (len(res["model_bad"]), lines[i0], outs[i0]))
+    ctx.cov["evaluations"] = ctx.cov.get("evaluations", 0) + len(cases)
+    ctx.cov["exhaustive_kind_combinations"] = len(cases)
+    ctx.cov["model_disagreements"] = ctx.cov.get("model_disagreements", 0) + total_bad
 
 
 def corpus():
